@@ -14,27 +14,37 @@ variable {w : Nat}
 
 /-! ### composing steps -/
 
-theorem StepOk.refl (ps : List (Rebuild w)) (s : Rebuild w) : StepOk ps s s [] := by
-  refine ⟨[], by simp, ?_⟩
+theorem StepAt.refl (sh : Int) (ps : List (Rebuild w)) (s : Rebuild w) : StepAt sh sh ps s s [] := by
+  refine ⟨[], by simp, fun h => h, ?_⟩
   intro M0 σE σS h
-  refine ⟨Sim.nil ⟨M0, h⟩ h.tr.symm, ?_⟩
+  refine ⟨Sim.nil ⟨M0, h, fun _ => ⟨rfl, rfl⟩⟩ h.tr.symm, ?_⟩
   intro hb; cases hb
 
-theorem StepOk.trans {ps : List (Rebuild w)} {a b c : Rebuild w} {l1 l2 : List (Instr w)}
-    (h1 : StepOk ps a b l1) (h2 : StepOk ps b c l2) : StepOk ps a c (l1 ++ l2) := by
-  obtain ⟨n1, e1, s1⟩ := h1
-  obtain ⟨n2, e2, s2⟩ := h2
-  refine ⟨n1 ++ n2, by rw [e2, e1, List.append_assoc], ?_⟩
+theorem StepAt.trans {sh1 sh2 sh3 : Int} {ps : List (Rebuild w)} {a b c : Rebuild w} {l1 l2 : List (Instr w)}
+    (h1 : StepAt sh1 sh2 ps a b l1) (h2 : StepAt sh2 sh3 ps b c l2) : StepAt sh1 sh3 ps a c (l1 ++ l2) := by
+  obtain ⟨n1, e1, m1, s1⟩ := h1
+  obtain ⟨n2, e2, m2, s2⟩ := h2
+  refine ⟨n1 ++ n2, by rw [e2, e1, List.append_assoc], fun h => m1 (m2 h), ?_⟩
   intro M0 σE σS h
   obtain ⟨hs1, hb1⟩ := s1 M0 σE σS h
   refine ⟨Sim.append hs1 ?_, ?_⟩
-  · rintro σS' σE' ⟨M0', h'⟩
-    exact (s2 M0' σE' σS' h').1
+  · rintro σS' σE' ⟨M0', h', hk'⟩
+    refine (s2 M0' σE' σS' h').1.mono ?_
+    rintro x y ⟨M0'', h'', hk''⟩
+    refine ⟨M0'', h'', fun hc => ?_⟩
+    obtain ⟨k1, k2⟩ := hk'' hc
+    obtain ⟨k3, k4⟩ := hk' (m2 hc)
+    exact ⟨k1.trans k3, k2.trans k4⟩
   · intro hb
     rcases bad_append.1 hb with hb | ⟨σ1, he, hb⟩
     · exact hb1 hb
-    · obtain ⟨σS', _, M0', h'⟩ := hs1.finR σ1 he
+    · obtain ⟨σS', _, M0', h', _⟩ := hs1.finR σ1 he
       exact (s2 M0' σ1 σS' h').2 hb
+
+theorem StepOk.refl (ps : List (Rebuild w)) (s : Rebuild w) : StepOk ps s s [] := StepAt.refl _ ps s
+
+theorem StepOk.trans {ps : List (Rebuild w)} {a b c : Rebuild w} {l1 l2 : List (Instr w)}
+    (h1 : StepOk ps a b l1) (h2 : StepOk ps b c l2) : StepOk ps a c (l1 ++ l2) := StepAt.trans h1 h2
 
 /-! ### straight-line instruction lists -/
 
@@ -98,7 +108,7 @@ theorem pk_top {s : Rebuild w} (ps : List (Rebuild w)) (hp : s.parent = .zero) (
     · split at h
       · simp only [pure, Except.pure, Except.ok.injEq, beq_iff_eq] at h
         show Expr.evaluate a _ = Expr.evaluate b _
-        rw [← Expr.eval_constantPart a ha, ← Expr.eval_constantPart b hb, h]
+        rw [← Expr.eval_constantPart a ha.weak, ← Expr.eval_constantPart b hb.weak, h]
       · simp [pure, Except.pure] at h
 
 theorem rel_init {s : Rebuild w} (ps : List (Rebuild w)) (hp : s.parent = .zero) (hc : s.cond = none)
@@ -215,7 +225,7 @@ theorem rebuild_straightline {b : Block w} (hb : StraightLine b) (prevAnal : Opt
     have := wf_new (w := w) 0 none .zero (some prevAnal)
     exact ⟨by rw [f8]; exact this.pend, by rw [f7]; exact this.writ, by rw [f9]; exact this.rev,
       by rw [f8, f9]; exact this.revOk⟩
-  obtain ⟨_, _, _, _, _, new, hnew, hsim⟩ := rebuildInsts_straight b.insts hb hwf0 (by rw [f5]; rfl) h3
+  obtain ⟨_, _, _, _, _, new, hnew, _, hsim⟩ := rebuildInsts_straight b.insts hb hwf0 (by rw [f5]; rfl) h3
   have hrel := rel_init (w := w) (s := reverseSubBlocks (Rebuild.new 0 none .zero (some prevAnal))) []
     (by rw [f1]; rfl) (by rw [f3]; rfl) (by rw [f2]; rfl) (by rw [f8]; rfl) (by rw [f7]; rfl)
     (by rw [f5]; rfl) env
@@ -223,8 +233,8 @@ theorem rebuild_straightline {b : Block w} (hb : StraightLine b) (prevAnal : Opt
   have hinsts : (if done = true then { s' with shift := s'.shift + b.shift } else s').insts = new := by
     have : s'.insts = new := by rw [hnew, f10]; rfl
     split <;> exact this
-  refine behEq_of_sim (Q := fun σS' σE' => ∃ M0', Rel s' [] M0' σE' σS') ?_ ?_
-  · rintro x y ⟨M0', h⟩
+  refine behEq_of_sim (Q := StepQ s'.shift [] s' (fun _ => 0#w) (State.init env)) ?_ ?_
+  · rintro x y ⟨M0', h, _⟩
     exact ⟨h.tr.symm, h.env.symm⟩
   · show Sim _ b.insts (if done = true then { s' with shift := s'.shift + b.shift } else s').insts _ _
     rw [hinsts]; exact hS
